@@ -279,6 +279,7 @@ let run_match dir total_less =
   let cur_corpus = ref None in
   let cur_words = ref (Hashtbl.create 1) and cur_docs = ref [] and cur_thr = ref (Float64.of_Z BinNums.Z0) in
   let case_corpus = ref 0 and case_t = ref None and case_diffs = ref (Hashtbl.create 1) in
+  let case_g = ref [] in
   iter_lines (fun line ->
     match fields line with
     | ["CORPUS"; id] -> cur_corpus := Some (int_of_string id); cur_words := Hashtbl.create 4096; cur_docs := []
@@ -300,7 +301,8 @@ let run_match dir total_less =
     | ["END"] -> (match !cur_corpus with
         | Some id -> Hashtbl.replace corpora id { thr = !cur_thr; words = !cur_words; docs = List.rev !cur_docs }
         | None -> ())
-    | ["CASE"; id] -> case_corpus := int_of_string id; case_t := None; case_diffs := Hashtbl.create 16
+    | ["CASE"; id] -> case_corpus := int_of_string id; case_t := None; case_diffs := Hashtbl.create 16; case_g := []
+    | ["G"; key; rs] -> case_g := (key, rs) :: !case_g
     | "T" :: "IDS" :: rest ->
       (* T IDS a LINES b PSEUDO c Q q SUMS s  with possibly empty fields *)
       let rec grab acc = function
@@ -356,6 +358,17 @@ let run_match dir total_less =
          if !bad > 0 then pr "ORACLE-INVALID(%d/%d) " !bad !checked;
          if !q_mismatch then pr "Q-MISMATCH ";
          let tset = mk_sset (List.length ids) q sums in
+         (* stage-level tie: getMatchedRanges of the code vs SSet.get_matched_ranges of the model, per document *)
+         List.iter (fun (k, rs) ->
+           match List.find_opt (fun d ->
+               String.concat "." (List.map (fun r -> string_of_int (int_of_n r)) d.Match.cd_key) = k) c.docs with
+           | None -> pr "G-UNKNOWN-DOC "
+           | Some d ->
+             let m = SSet.get_matched_ranges d.Match.cd_set tset c.thr in
+             let ms = String.concat ";" (List.map (fun r ->
+                 Printf.sprintf "%d,%d,%d,%d,%d" (int_of_n r.SSet.src_start) (int_of_n r.SSet.src_end)
+                   (int_of_n r.SSet.tgt_start) (int_of_n r.SSet.tgt_end) (int_of_n r.SSet.claimed)) m) in
+             if ms <> rs then pr "G-MISMATCH(%s: code %s model %s) " k rs ms) (List.rev !case_g);
          (match Match.match_tokens cfg c.docs (List.map n_of_int ids) (List.map z_of_int lines)
                   (List.map z_of_int pseudo) tset with
           | Match.Err site -> pr "ERR%d" (int_of_nat site)
